@@ -435,11 +435,12 @@ type callResult struct {
 }
 
 type sched struct {
-	h    *harness
-	c    cell
-	rep  int
-	F, S int
-	m    [2]*member
+	h      *harness
+	c      cell
+	rep    int
+	nested bool // the members handed to the unifier under test are unifiers themselves
+	F, S   int
+	m      [2]*member
 
 	parent       context.Context
 	cancelFn     context.CancelFunc
@@ -756,7 +757,14 @@ func (s *sched) execute() {
 	h, run, c := s.h, s.h.run, s.c
 	F, S := s.F, s.S
 	ctxwait := c.style != stPrompt // some member answers only upon cancellation
-	u := ociunify.New(s.m[0].funcs(), s.m[1].funcs(), &ociunify.Options{ReadPolicy: ociunify.ReadConcurrent})
+	var mem0, mem1 ociregistry.Interface = s.m[0].funcs(), s.m[1].funcs()
+	if s.nested {
+		// each member is itself a unifier (sequential, over the fake member and a registry that has
+		// nothing): what it returns is already one of this package's own reader wrappers
+		mem0 = ociunify.New(mem0, &ociregistry.Funcs{}, nil)
+		mem1 = ociunify.New(mem1, &ociregistry.Funcs{}, nil)
+	}
+	u := ociunify.New(mem0, mem1, &ociunify.Options{ReadPolicy: ociunify.ReadConcurrent})
 
 	if s.preCancel {
 		s.doCancel("before the call is made")
@@ -1038,6 +1046,10 @@ func main() {
 				s.m[0].failErr = fmt.Errorf("member 0: upstream request: %w", context.Canceled)
 				s.m[1].failErr = fmt.Errorf("member 1: upstream request: %w", context.Canceled)
 				run.Count("cases_with_context_like_member_errors", 1)
+			}
+			s.nested = rep%7 == 6 || rep%10 == 9
+			if s.nested {
+				run.Count("cases_with_nested_unifiers", 1)
 			}
 			if rep%5 == 3 {
 				// readers that fail halfway through the content
